@@ -328,10 +328,14 @@ def run_singleton_start(key):
     shape1 = tuple(1 if pattern[i] else lead[i] for i in range(len(lead)))
     init1 = A.soft_affiliation(seed, shape1, K, N, 'c06ss', model, pattern)
     full = np.broadcast_to(init1, lead + (K, N)).copy()
-    a, e = _call(lambda: M.fit(model, y, init1, its))
+    sopts = {}
+    if key.get('sal'):
+        # together with a per-slice saliency of the full leading shape
+        sopts['saliency'] = S.make_saliency(lead, N, 'graded')
+    a, e = _call(lambda: M.fit(model, y, init1, its, **sopts))
     if e is not None:
         return viol(f'{model}: fit with a singleton-leading start raised {e!r}')
-    b, e = _call(lambda: M.fit(model, y, full, its))
+    b, e = _call(lambda: M.fit(model, y, full, its, **sopts))
     if e is not None:
         return viol(f'{model}: fit with the repeated start raised {e!r}')
     fa, fb = M.fields(model, a), M.fields(model, b)
@@ -427,8 +431,10 @@ def subchecks(tier, seed):
                     for pattern in itertools.product((True, False), repeat=len(lead)):
                         if not any(pattern):
                             continue
-                        yield (model, lead, 2, D, 2 * (D + 2) + 2, its, pattern, seed)
-    subs.append(Sub('singleton_start', ('model', 'lead', 'K', 'D', 'N', 'its', 'pattern', 'seed'), ss_cases,
+                        yield (model, lead, 2, D, 2 * (D + 2) + 2, its, pattern, False, seed)
+                        if its == 1 and model != 'cbmm':
+                            yield (model, lead, 2, D, 2 * (D + 2) + 2, its, pattern, True, seed)
+    subs.append(Sub('singleton_start', ('model', 'lead', 'K', 'D', 'N', 'its', 'pattern', 'sal', 'seed'), ss_cases,
                     run_singleton_start))
 
     def hand_cases():
